@@ -190,6 +190,38 @@ fn check_pair_inner(ctx: &Ctx, mode: SubMode, set: &SubSet, hay: &[u8], place: P
                     if let Some((step, lo, hi, rem)) = run.hint_fail {
                         return Some(sub_viol(ctx, $name, "size_hint", needle, hay, place, &format!("lo <= {} <= hi", rem), &format!("({}, {:?}) after {} items", lo, hi, step), "size_hint does not bracket the number of matches still to come"));
                     }
+                    // what the iterator "yields" is also what the consuming Iterator methods see (a specialised
+                    // last / count / nth must agree with the sequence), from the start and after one item
+                    if hay.len() <= 4096 {
+                        for skip in 0..2usize {
+                            if skip > $exp.len() {
+                                break;
+                            }
+                            let rest = &$exp[skip.min($exp.len())..];
+                            macro_rules! fresh {
+                                () => {{
+                                    let mut it = $it;
+                                    for _ in 0..skip {
+                                        let _ = it.next();
+                                    }
+                                    it
+                                }};
+                            }
+                            let l = fresh!().last();
+                            if l != rest.last().copied() {
+                                return Some(sub_viol(ctx, $name, "iter", needle, hay, place, &fmt_opt(rest.last().copied()), &fmt_opt(l), &format!("last() after {} item(s) is not the last item the iterator yields", skip)));
+                            }
+                            let c = fresh!().take(cap).count();
+                            if c != rest.len() {
+                                return Some(sub_viol(ctx, $name, "iter", needle, hay, place, &rest.len().to_string(), &c.to_string(), &format!("count() after {} item(s) is not the number of items the iterator yields", skip)));
+                            }
+                            let k = rest.len() / 2;
+                            let nth = fresh!().nth(k);
+                            if nth != rest.get(k).copied() {
+                                return Some(sub_viol(ctx, $name, "iter", needle, hay, place, &fmt_opt(rest.get(k).copied()), &fmt_opt(nth), &format!("nth({}) after {} item(s) is not that item of the sequence", k, skip)));
+                            }
+                        }
+                    }
                 }
             }};
         }
